@@ -17,7 +17,7 @@ namespace Iso
 /-! ## Exceptions as data -/
 
 inductive Exc where
-  | valueError | unicodeDecodeError | typeError | overflowError | osError | indexError
+  | valueError | unicodeDecodeError | typeError | overflowError | osError | indexError | attributeError
   deriving DecidableEq, Repr
 
 /-- The class and its bases, most derived first (names as they can appear in an `except`). -/
@@ -28,6 +28,7 @@ def Exc.mro : Exc → List String
   | .overflowError => ["OverflowError", "ArithmeticError", "Exception", "BaseException"]
   | .osError => ["OSError", "EnvironmentError", "IOError", "Exception", "BaseException"]
   | .indexError => ["IndexError", "LookupError", "Exception", "BaseException"]
+  | .attributeError => ["AttributeError", "Exception", "BaseException"]
 
 def Exc.name (e : Exc) : String := e.mro.headD "?"
 
